@@ -63,7 +63,36 @@ func runC23(c *Ctx) {
 	hb := c.SSAFunc("protocol/blockfetch", "Client.handleBlock")
 	hk := ssaFuncKey(hb)
 	nCb := 0
-	for _, f := range withAnon(hb) {
+	// handleBlock and the helpers it calls synchronously, outside any loop
+	syncFns := []*ssa.Function{hb}
+	for i := 0; i < len(syncFns) && i < 6; i++ {
+		for _, ci := range allCalls(syncFns[i]) {
+			_, isGo := ci.(*ssa.Go)
+			_, isDefer := ci.(*ssa.Defer)
+			if h := samePkgHelper(syncFns[i], ci.Common()); h != nil && !isGo && !isDefer && !inLoop(ci.Block()) && h.Parent() == nil {
+				dup := false
+				for _, g := range syncFns {
+					dup = dup || g == h
+				}
+				if !dup {
+					syncFns = append(syncFns, h)
+				}
+			}
+		}
+	}
+	isSync := func(f *ssa.Function) bool {
+		for _, g := range syncFns {
+			if g == f {
+				return true
+			}
+		}
+		return false
+	}
+	var scan []*ssa.Function
+	for _, g := range syncFns {
+		scan = append(scan, withAnon(g)...)
+	}
+	for _, f := range scan {
 		for _, ci := range allCalls(f) {
 			d := desc(ci.Common().Value)
 			if !(strings.HasSuffix(d, ".config.BlockFunc") || strings.HasSuffix(d, ".config.BlockRawFunc")) {
@@ -72,10 +101,13 @@ func runC23(c *Ctx) {
 			nCb++
 			_, isGo := ci.(*ssa.Go)
 			_, isDefer := ci.(*ssa.Defer)
-			c.Check(!isGo && !isDefer && f == hb && !inLoop(ci.Block()), "range-callback-sync", hk+":"+d[strings.LastIndex(d, ".")+1:], ci.Pos(), "callback runs synchronously, once, on the handler goroutine", "the block callback is invoked asynchronously/deferred/in a loop: delivery order or multiplicity is no longer the arrival order")
+			c.Check(!isGo && !isDefer && isSync(f) && !inLoop(ci.Block()), "range-callback-sync", hk+":"+d[strings.LastIndex(d, ".")+1:], ci.Pos(), "callback runs synchronously, once, on the handler goroutine", "the block callback is invoked asynchronously/deferred/in a loop: delivery order or multiplicity is no longer the arrival order")
 			// argument provenance: the block/bytes of this message
 			args := ci.Common().Args
 			ad := desc(args[len(args)-1])
+			if f != hb {
+				ad = traceIP(hb, args[len(args)-1])
+			}
 			c.Check(strings.Contains(ad, "RawBlock") || strings.Contains(ad, "NewBlockFromCbor("), "range-callback-arg", hk+":"+d[strings.LastIndex(d, ".")+1:], ci.Pos(), "callback receives this message's block", "callback receives "+ad)
 		}
 	}
